@@ -156,3 +156,50 @@ func init() {
 		}
 	}
 }
+
+// c03Base58: standard (bitcoin alphabet) base58, as mr-tron/base58.Encode.
+func c03Base58(b []byte) string {
+	const alphabet = "123456789ABCDEFGHJKLMNPQRSTUVWXYZabcdefghijkmnopqrstuvwxyz"
+	zeros := 0
+	for zeros < len(b) && b[zeros] == 0 {
+		zeros++
+	}
+	num := append([]byte{}, b...)
+	var out []byte
+	for start := zeros; start < len(num); {
+		rem := 0
+		for i := start; i < len(num); i++ {
+			acc := rem*256 + int(num[i])
+			num[i] = byte(acc / 58)
+			rem = acc % 58
+		}
+		out = append(out, alphabet[rem])
+		for start < len(num) && num[start] == 0 {
+			start++
+		}
+	}
+	for i := 0; i < zeros; i++ {
+		out = append(out, '1')
+	}
+	for i, j := 0, len(out)-1; i < j; i, j = i+1, j-1 {
+		out[i], out[j] = out[j], out[i]
+	}
+	return string(out)
+}
+
+func init() {
+	// solana.Hash.String() = base58.Encode(h[:]) (exact model for a concrete hash; solana-go is not a
+	// source root).
+	const hs = "(github.com/gagliardetto/solana-go.Hash).String"
+	if externals[hs] == nil {
+		externals[hs] = func(fr *frame, args []value) value {
+			stub("solana.Hash.String (model: exact base58 of the concretised 32 bytes)")
+			in := args[0].(array)
+			b := make([]byte, len(in))
+			for i := range in {
+				b[i] = concretize(in[i], "hash byte").(uint8)
+			}
+			return c03Base58(b)
+		}
+	}
+}
